@@ -494,6 +494,63 @@ fn norm<F: Scalar>(p: &Params) {
     }
 }
 
+/// columns far from the origin: what matters is the spread, not the offset
+fn far_from_origin<F: Scalar>(p: &Params) {
+    let (n, b, offs, method) = (p.u("n", 3), p.get("B", 8), p.get("offs", 27), p.u("method", 0));
+    let xi: Vec<F> = (0..n).map(|i| int::<F>(&format!("x{}", i), -b, b)).collect();
+    // one path per ordering of the rows, so that witnesses with different values are evaluated
+    for i in 0..n {
+        for j in i + 1..n {
+            let _ = xi[i] < xi[j] || xi[j] < xi[i];
+        }
+    }
+    let shift = F::lit((offs as f64).exp2());
+    let x = Array2::from_shape_fn((n, 1), |(i, _)| xi[i] + shift);
+    let params = match method {
+        STD => LinearScaler::standard(),
+        MINMAX => LinearScaler::min_max(),
+        _ => LinearScaler::max_abs(),
+    };
+    let md = meta(n, 1);
+    let scaler = match params.fit(&dataset(&x, &md)) {
+        Ok(s) => s,
+        Err(_) => {
+            check_bool("far.fit succeeds on non-empty records", false);
+            return;
+        }
+    };
+    let out: Array2<F> = scaler.transform(x.clone());
+    check_bool("far.transform keeps the shape", out.dim() == (n, 1));
+    if out.dim() != (n, 1) {
+        return;
+    }
+    let o: Vec<F> = out.column(0).to_vec();
+    let constant = SymB::all(&(1..n).map(|i| xi[i].s_eq(xi[0])).collect::<Vec<_>>());
+    let (zero, one) = (F::lit(0.0), F::lit(1.0));
+    let t = F::lit(1e-6 * n as f64);
+    match method {
+        STD => {
+            let s = sum(o.iter().copied());
+            let v = sum(o.iter().map(|&u| u * u));
+            check("far.standard: zero mean", fabs(s).s_le(t));
+            check("far.standard: unit variance on a non-constant column", constant.or(fabs(v - F::lit(n as f64)).s_le(t)));
+            check("far.standard: a constant column is only centred", constant.not().or(SymB::all(&o.iter().map(|&u| fabs(u).s_le(t)).collect::<Vec<_>>())));
+        }
+        MINMAX => {
+            let (mn, mx) = (fold(o.iter().copied(), NF::min), fold(o.iter().copied(), NF::max));
+            check("far.minmax: a non-constant column attains 0 and 1", constant.or(fabs(mn).s_le(t).and(fabs(mx - one).s_le(t))));
+        }
+        _ => {
+            let mx = fold(o.iter().map(|&u| fabs(u)), NF::max);
+            check("far.maxabs: maximum absolute value one", fabs(mx - one).s_le(t));
+        }
+    }
+    for u in &o {
+        observe(*u);
+    }
+    let _ = zero;
+}
+
 /// degenerate inputs (concrete shapes, one path)
 fn errors<F: Scalar>(_p: &Params) {
     let empty = || DatasetBase::from(Array2::<F>::from_elem((0, 2), F::lit(0.0)));
@@ -535,6 +592,10 @@ pub fn register(v: &mut Vec<HarnessDef>) {
         "NormScaler (norm 1 l1, 2 l2, 3 max) on a symbolic n x p integer matrix: ob 1 unit norm directly, 2 output * N == input, 3 N is the norm of the input row; finite, row-wise (reordered / single rows identical), dataset vs array identical, metadata; zero=i makes row i all-zero and demands finite output (recorded defect)",
         ["<linfa_preprocessing::norm_scaling::NormScaler as Transformer<Array2>>::transform", "<NormScaler as Transformer<DatasetBase>>::transform", "linfa_linalg::norm::Norm::{norm_l1,norm_l2,norm_max}"],
         ["entries are integers in [-B,B]", "rows other than the `zero` row are non-zero"]);
+    harness!(v, "c16.far_from_origin", "C16", far_from_origin,
+        "standard / min-max / max-abs scaling of columns whose values lie far from the origin (integers shifted by 2^offs): the postconditions of the statement recomputed from the outputs (zero mean, unit variance, ends of the range attained)",
+        ["LinearScalerParams::fit", "ScalingMethod::{standardize,min_max,max_abs}", "LinearScaler::transform"],
+        ["one column of n integers in [-B,B] shifted by 2^offs; one path (and witness) per ordering of the rows", "the solver decides the obligations in exact arithmetic; a formula that cancels in floating point shows on the witnesses"]);
     harness!(v, "c16.errors", "C16", errors,
         "empty training data and a flipped min-max range are errors; empty matrices transform to empty matrices",
         ["LinearScalerParams::fit", "ScalingMethod::{standardize,min_max,max_abs}", "LinearScaler::transform", "NormScaler::transform"],
